@@ -30,7 +30,7 @@ func main() {
 			repo = os.Args[3]
 		}
 		e := &Engine{}
-		r := e.runDynTest(os.Args[2], false, checkOpts{repo: repo, verif: "/verif"})
+		r := e.runDynTest(os.Args[2], false, checkOpts{repo: repo, verif: "/verif", tier: os.Getenv("VERIF_TIER")})
 		fmt.Println(r.Output)
 		if r.Confirmed {
 			os.Exit(1)
